@@ -214,6 +214,14 @@ func (a LinForm) String() string {
 	return strings.Join(parts, " + ")
 }
 
+// fieldInvariants: declared ranges of integer struct fields. They are used
+// for loads and checked at every store (kind "inv-store"), so they hold
+// inductively.
+var fieldInvariants = map[string]Itv{
+	"tcp.SACKInfo.NumBlocks":     {0, 6},   // number of valid entries of Blocks [MaxSACKBlocks]
+	"stack.linkAddrCache.next":   {0, 511}, // ring index into entries [linkAddrCacheSize]
+}
+
 // ---------------------------------------------------------------- per-function analysis
 
 type AObl struct {
@@ -485,7 +493,13 @@ func (a *absFn) lenForm(s ssa.Value, depth int) LinForm {
 			}
 		}
 	}
-	return lfRoot("len(" + a.key(s) + ")")
+	k := a.key(s)
+	if p, ok := s.Type().Underlying().(*types.Pointer); ok {
+		if _, isSl := p.Elem().Underlying().(*types.Slice); isSl {
+			k = strings.TrimPrefix(k, "&")
+		}
+	}
+	return lfRoot("len(" + k + ")")
 }
 
 // lenOfSliceBase: the operand of a slice expression may be a slice, a
@@ -570,6 +584,24 @@ func (a *absFn) structItv(v ssa.Value, block int) Itv {
 		return Itv{c, c}
 	}
 	tr := typeRange(v.Type())
+	if u, ok := v.(*ssa.UnOp); ok && u.Op == token.MUL {
+		if fv, base := fieldOf(u.X); fv != nil {
+			bt := base.Type()
+			if p, ok := bt.Underlying().(*types.Pointer); ok {
+				bt = p.Elem()
+			}
+			if iv, ok := fieldInvariants[TypeStr(bt)+"."+fv.Name()]; ok {
+				return iv.meet(tr)
+			}
+		}
+	}
+	if f, ok := v.(*ssa.Field); ok {
+		if fv, base := fieldOf(f); fv != nil {
+			if iv, ok := fieldInvariants[TypeStr(base.Type())+"."+fv.Name()]; ok {
+				return iv.meet(tr)
+			}
+		}
+	}
 	switch x := v.(type) {
 	case *ssa.Phi:
 		if b, ok := a.phiBase[x]; ok {
@@ -847,8 +879,35 @@ func (a *absFn) condFacts(cond ssa.Value, holds bool) []LinForm {
 		case token.GEQ:
 			return []LinForm{d.scale(-1)}
 		case token.EQL:
+			// (y % c) == 0 with y > -c  =>  y >= 0
+			if rem, ok := x.X.(*ssa.BinOp); ok && rem.Op == token.REM {
+				if k, isC := constInt(x.Y); isC && k == 0 {
+					if cc, isC2 := constInt(rem.Y); isC2 && cc > 0 {
+						if a.eval(rem.X, x.Block().Index).Lo > -cc {
+							return []LinForm{d, d.scale(-1), a.decompose(rem.X, 0).scale(-1)}
+						}
+					}
+				}
+			}
 			return []LinForm{d, d.scale(-1)}
 		case token.NEQ:
+			// (y & m) != 0  =>  y != 0; with y >= 0: y >= 1
+			if band, ok := x.X.(*ssa.BinOp); ok && band.Op == token.AND {
+				if k, isC := constInt(x.Y); isC && k == 0 {
+					var out []LinForm
+					for _, opnd := range []ssa.Value{band.X, band.Y} {
+						if _, isConst := constInt(opnd); isConst {
+							continue
+						}
+						if a.eval(opnd, x.Block().Index).Lo >= 0 {
+							out = append(out, lfConst(1).add(a.decompose(opnd, 0), -1))
+						}
+					}
+					if len(out) > 0 {
+						return out
+					}
+				}
+			}
 			// x != c with x >= c known  =>  x >= c+1 (common: len != 0, n != 0)
 			it := a.lfItv(d, x.Block().Index)
 			if it.Lo >= 0 {
@@ -1344,6 +1403,18 @@ func (a *absFn) Obligations() []*AObl {
 				if _, isMap := x.X.Type().Underlying().(*types.Map); !isMap {
 					a.indexObl(in, x.X, x.Index)
 				}
+			case *ssa.Store:
+				if fv, base := fieldOf(x.Addr); fv != nil {
+					bt := base.Type()
+					if p, ok := bt.Underlying().(*types.Pointer); ok {
+						bt = p.Elem()
+					}
+					if iv, ok := fieldInvariants[TypeStr(bt)+"."+fv.Name()]; ok {
+						it := a.eval(x.Val, b.Index)
+						o := &AObl{Fn: a.fn, Instr: in, Kind: "inv-store", Desc: TypeStr(bt) + "." + fv.Name() + " = " + a.t.T(x.Val) + " stays in " + iv.String(), OK: !it.empty() && it.within(iv), How: "interval " + it.String(), Goal: lfConst(1)}
+						a.obls = append(a.obls, o)
+					}
+				}
 			case *ssa.Slice:
 				a.sliceObl(x)
 			case *ssa.BinOp:
@@ -1410,6 +1481,11 @@ func (a *absFn) sliceObl(x *ssa.Slice) {
 		}
 	}
 	if x.High != nil {
+		if call, ok := x.High.(*ssa.Call); ok {
+			if b, isB := call.Common().Value.(*ssa.Builtin); isB && b.Name() == "cap" && call.Common().Args[0] == x.X {
+				return // v[:cap(v)] is always legal
+			}
+		}
 		hi := a.decompose(x.High, 0)
 		a.oblige(x, "slice", hi.add(base, -1), a.t.T(x.High)+" <= len("+a.t.T(x.X)+")  [cap unknown: len used]")
 		if x.Low != nil {
@@ -1445,28 +1521,58 @@ func (an *Absint) Requirements(g *ssa.Function) []LinForm {
 	return out
 }
 
-// deferrable: the goal is K <= len(T) for a single parameter-rooted term T.
+// deferrable: the goal is a linear inequality purely over the function's
+// parameters (their values, lengths and pure accessors of them), so that a
+// caller can discharge it in its own frame.
 func deferrable(g LinForm) bool {
-	if len(g.coef) != 1 || !paramRooted(g) {
+	if len(g.coef) == 0 || !paramRooted(g) {
 		return false
-	}
-	for k, c := range g.coef {
-		if c != -1 || !strings.HasPrefix(k, "len(") {
-			return false
-		}
 	}
 	return true
 }
 
+// stripCalls removes qualified function names so that only value paths remain
+// ("header.TCP.DataOffset($0)" -> "($0)"; "$0.holes" keeps its dot).
+func stripCalls(k string) string {
+	var b strings.Builder
+	i := 0
+	for i < len(k) {
+		// an identifier path followed by '(' is a callee name
+		j := i
+		for j < len(k) && (isIdentByte(k[j]) || k[j] == '.' || k[j] == '*' || k[j] == '/' || k[j] == ':') {
+			j++
+		}
+		if j > i && j < len(k) && k[j] == '(' && !strings.HasPrefix(k[i:j], "$") {
+			i = j
+			continue
+		}
+		if j > i {
+			b.WriteString(k[i:j])
+			i = j
+			continue
+		}
+		b.WriteByte(k[i])
+		i++
+	}
+	return b.String()
+}
+
+func isIdentByte(c byte) bool {
+	return c == '_' || c == '$' || (c >= '0' && c <= '9') || (c >= 'a' && c <= 'z') || (c >= 'A' && c <= 'Z')
+}
+
 func summaryForm(g LinForm) (int, int64, bool) {
-	if !deferrable(g) {
+	if !deferrable(g) || len(g.coef) != 1 {
 		return 0, 0, false
 	}
-	for k := range g.coef {
+	for k, c := range g.coef {
+		if c != -1 {
+			return 0, 0, false
+		}
 		var i int
 		if n, err := fmt.Sscanf(k, "len($%d)", &i); n == 1 && err == nil && k == fmt.Sprintf("len($%d)", i) {
 			return i, g.c, true
 		}
 	}
-	return -1, g.c, true
+	return 0, 0, false
 }
